@@ -126,13 +126,16 @@ CLAIMED["C09"] = dict(
          ">=1 where (H(window)&mask)=trigger, else MAX with offset=max_len, offset<=max_len; boundaries of a stream are "
          "identical for any two cuttings into run calls (incl. max_len 0 and <w); mask_gen formula. T-route: the "
          "256-entry table is re-extracted from rolling_hash2_table.h on every run and the kernel checks it equals the "
-         "pinned table. Tie: correspondence of run with each scan forced (base, _00, _04 via --wrap) and the public "
+         "pinned table; the 64-bit arithmetic of the step (both scan loops of _rolling_hash2_run_until_base with their exit "
+         "tests, hash_fn, the reset loop) is re-translated from rolling_hash2.c by gen_rollstep.py and has to equal the "
+         "programs proved to be the model's step (hashFn_eq, untilLoop_unfold, resetLoop_unfold; loop frames are "
+         "shape-compared). Tie: correspondence of run with each scan forced (base, _00, _04 via --wrap) and the public "
          "API, every run also executed with the base scan on a copy. Found and fixed F5, F4.",
     note="Trusted: Lean kernel + standard axioms; tools/gen_rolling_table.py; harness. The assembly scans are specified "
          "by the base scan and checked differentially only. One run per check uses max_len >= 2^31 "
          "on an aliased 3 GiB window (monitors only; the model cannot expand it).",
-    technique="Lean 4 proof over hand-written model + regenerated constant table + differential correspondence",
-    engine="Rolling", ref="5 C09")
+    technique="Lean 4 proof over hand-written model + regenerated constant table and step arithmetic (per-run decide obligations) + differential correspondence",
+    engine="Rolling", ref="5 C09, 10.9")
 
 CLAIMED["C07"] = dict(
     text="Proof (Lean 4): theorem C07 - for every key schedule, 12-byte IV, AAD, every list of update pieces (any lengths "
